@@ -55,12 +55,16 @@ func checkTraversal(m *model.M, before map[int]model.Ent, o *model.Op, r *model.
 		if mu.At >= len(r.Vis) {
 			continue
 		}
+		key := mu.Op.Key
+		if mu.Cur {
+			key = r.Vis[mu.At].K
+		}
 		switch mu.Op.K {
 		case model.MStore, model.CSet, model.CSetForever:
-			held[mu.Op.Key] = append(held[mu.Op.Key], mu.Op.Val)
-			touched[mu.Op.Key] = true
+			held[key] = append(held[key], mu.Op.Val)
+			touched[key] = true
 		case model.MDelete, model.CDelete:
-			touched[mu.Op.Key] = true
+			touched[key] = true
 		}
 	}
 	if o.N > 0 && len(r.Vis) > o.N {
@@ -190,6 +194,16 @@ func runC07Case(rt *rapid.T) {
 			o.N = irange(rt, 1, 12, "stopAfter")
 		}
 		nm := irange(rt, 0, 4, "muts")
+		if irange(rt, 0, 3, "restorePattern") == 0 {
+			// the visitor deletes the key it is visiting, stores a fresh key (which may reuse the freed
+			// slot) and stores the visited key again (which may land further down the chain)
+			at := irange(rt, 0, 12, "at")
+			next += 2
+			o.Muts = append(o.Muts,
+				model.Mut{At: at, Cur: true, Op: model.Op{K: kDel}},
+				model.Mut{At: at, Op: model.Op{K: kStore, Key: 3320 + at, Val: next - 1, D: model.NoExpiration}},
+				model.Mut{At: at, Cur: true, Op: model.Op{K: kStore, Val: next, D: model.NoExpiration}})
+		}
 		for i := 0; i < nm; i++ {
 			at := irange(rt, 0, 20, "at")
 			if len(liveKeys) > 40 && rapid.Bool().Draw(rt, "late") {
@@ -241,6 +255,9 @@ func runC07Case(rt *rapid.T) {
 		for _, mu := range o.Muts {
 			if mu.At == at {
 				mo := mu.Op
+				if mu.Cur {
+					mo.Key = res.Vis[at].K
+				}
 				if err := m.Step(&mo, nil); err != nil {
 					fail("sequential", "model", err.Error())
 				}
@@ -323,6 +340,9 @@ func replayC07(v *Violation) *Violation {
 					for _, mu := range o.Muts {
 						if mu.At == at {
 							mo := mu.Op
+							if mu.Cur {
+								mo.Key = res.Vis[at].K
+							}
 							_ = m.Step(&mo, nil)
 						}
 					}
